@@ -13,6 +13,7 @@ import (
 	"regexp"
 	"sort"
 	"strings"
+	"time"
 
 	"github.com/semihalev/twig"
 )
@@ -1097,7 +1098,10 @@ func runC20(e *Env) error {
 		"interleaved probes) and after flooding the process-wide cache with > 1000 (thorough > 5000) distinct (type, name) pairs; the same history is replayed " +
 		"on the Lean model; then (c) chains of 0–14 embedded structs / pointers (index paths up to 15 steps, levels of up to 300 fields, shadowed and ambiguous " +
 		"names, nil pointers at any level; replayed on the model down to 12 levels) and (d) a long history of > 9000 (thorough > 80000) distinct (type, name) " +
-		"pairs that each find a field, with pairs of the recent past, the older past and a hot set read again in between. " +
+		"pairs that each find a field, with pairs of the recent past, the older past and a hot set read again in between; " +
+		"(e) maps of 8 shapes whose keys look like numbers, booleans, nil, blanks or each other (every single key of a pool of 41, the pool minus every key, random subsets), " +
+		"every name of the pool asked as x.N, x['N'] and through computed keys (context string, set variable, concatenation, loop variable) against the map read directly, " +
+		"and the same contents with literal / integer / boolean / null / looped indices and nested maps through the Lean model. " +
 		"non-trivial = expected output non-empty; distinct by (object, name, syntax)"
 	c := &c20Run{e: e, g: c20NewEng(), first: map[string]string{}, pairs: map[string]bool{}}
 
@@ -1406,6 +1410,13 @@ func runC20(e *Env) error {
 		for _, o := range zoo {
 			o.vi = -1
 		}
+	}
+	if !r.Full() {
+		t0 := time.Now()
+		if err := c20MapKeys(c); err != nil {
+			return err
+		}
+		r.Note(fmt.Sprintf("map contents × keys (part e): %.1fs", time.Since(t0).Seconds()))
 	}
 	if !r.Full() {
 		if err := c20DeepAndLong(c); err != nil {
